@@ -22,6 +22,7 @@ RULE = ("Two real dilated wormholes; w.dilate() is called on each side at a tape
         "after stabilisation (no more faults): both Managers are connected and their connections are the two "
         "ends of one link. Non-trivial = >=1 loss of a selected link, or >=2 candidates established in one "
         "generation, or the two dilate() calls separated by >=1 scheduler step. Distinct = (features, trace).")
+RULE += (" Added later: losses noticed by one side only or by nobody (silent stall: only the Leader's keep-alive detects it); the Leader's candidate lost while its accept() waits in the eventual queue.")
 ASSUMPTIONS = ["simulated TCP and mailbox (FIFO per sender, no mailbox faults)", "convergence judged at quiescence "
                "within the stabilisation budget; the precondition 'one attempt of the new generation completes' holds "
                "because no faults are injected during stabilisation"]
